@@ -94,6 +94,40 @@ Proof.
 Qed.
 Print Assumptions c18_case_sensitive.
 
+(* sequences of writes, of ANY length, through ANY strings (unknown names are refused and change nothing): the sequence
+   never panics, and afterwards every accepted name reads the value written last through any spelling of its register -
+   or what it read before, if no such write occurred; the dedicated accessors likewise *)
+Theorem c18_write_sequence : forall c, In c all_contexts -> forall ops rf,
+  exists rf', apply_writes c rf ops = Ret rf' /\
+    (forall m, In m (accepted c) ->
+       get_always c rf' m = match last_write c m ops None with Some v => Ret v | None => get_always c rf m end) /\
+    md_stack_pointer c rf' =
+      match last_write c (ct_sp_name c) ops None with Some v => Ret v | None => md_stack_pointer c rf end /\
+    md_instruction_pointer c rf' =
+      match last_write c (ct_ip_name c) ops None with Some v => Ret v | None => md_instruction_pointer c rf end.
+Proof.
+  intros c Hc ops rf. pose proof (all_facts c Hc) as F.
+  destruct (write_sequence c F ops rf) as [rf' [A G]]. exists rf'. split; [exact A|]. split; [exact G|].
+  assert (Acc : forall acc n, ok_special c acc n = true -> In n (accepted c)).
+  { intros acc n H. destruct (special_agrees c F acc n H rf) as [_ [_ [M _]]].
+    destruct (memoize c n) as [k|] eqn:E; [|contradiction]. exact (memoizable_accepted c F n k E). }
+  split.
+  - destruct (special_agrees c F _ _ (f_sp c F) rf') as [A1 [B1 _]]. destruct (special_agrees c F _ _ (f_sp c F) rf) as [A0 [B0 _]].
+    unfold md_stack_pointer. rewrite B1, <- A1, B0, <- A0. exact (G _ (Acc _ _ (f_sp c F))).
+  - destruct (special_agrees c F _ _ (f_ip c F) rf') as [A1 [B1 _]]. destruct (special_agrees c F _ _ (f_ip c F) rf) as [A0 [B0 _]].
+    unfold md_instruction_pointer. rewrite B1, <- A1, B0, <- A0. exact (G _ (Acc _ _ (f_ip c F))).
+Qed.
+Print Assumptions c18_write_sequence.
+(* ARM: r13 := 1; foo := 2 (refused); sp := 3; r12 := 4; r13 := 5  -  sp and get_stack_pointer read 5, r12 reads 4, r11 (fp) its old value *)
+Example c18_nonvacuous_sequence :
+  let rf0 : regfile := fun _ _ => 8 in
+  let ops := [([114; 49; 51], 1); ([102; 111; 111], 2); ([115; 112], 3); ([114; 49; 50], 4); ([114; 49; 51], 5)] in
+  exists rf', apply_writes ctx_arm rf0 ops = Ret rf' /\
+    get_always ctx_arm rf' [115; 112] = Ret 5 /\ md_stack_pointer ctx_arm rf' = Ret 5 /\
+    get_always ctx_arm rf' [114; 49; 50] = Ret 4 /\ get_always ctx_arm rf' [102; 112] = Ret 8 /\
+    last_write ctx_arm [115; 112] ops None = Some 5 /\ last_write ctx_arm [102; 112] ops None = None.
+Proof. cbv zeta. eexists. split; [vm_compute; reflexivity|]. repeat split; vm_compute; reflexivity. Qed.
+
 (* what the checker does with a by-name read that is not the plain location: X86 with
    `"esp" => self.esp & !3` in get_register_always.  set_register("esp", 7) is accepted but the
    read-back is 4; [diagnose] reports the table. *)
